@@ -25,7 +25,7 @@ TRUSTED = ["C11 contract of RendezvousHash.get_node", "C13 contracts of _safely_
 ASSUMPTIONS = ["servers were added through the constructor (normalised specs)", "no server fails during the call (that is C13)"]
 NOT_COVERED = [               "set_many: (server_key, key) pairs sharing one stripped key on one server (dict overwrite) are excluded by a stated assumption",
                "the step from 'union of per-server answers' to 'equals the per-key gets' uses C11 (placement is a function) as a lemma, not re-proved here"]
-BUDGET = {"quick": 30, "thorough": 120}
+BUDGET = {"quick": 40, "thorough": 120}
 DEPENDS = ["C11", "C13"]      # placement contract (C11) and the failover contracts (_safely_run_func, _safely_run_set_many, _retry_dead: C13) used here
 FILTER_BY_PROPERTY = True
 REPLAY_UNDECIDED = True
